@@ -157,6 +157,41 @@ def canon(obj) -> str:
     return json.dumps(obj, sort_keys=True, default=repr)
 
 
+def source_fingerprint() -> str:
+    h = hashlib.sha1(sys.version.encode())
+    for top in ("passlib", "libpass"):
+        for root, dirs, files in os.walk(os.path.join("/repo", top)):
+            dirs[:] = sorted(d for d in dirs if d != "__pycache__")
+            for f in sorted(files):
+                if f.endswith(".py"):
+                    p = os.path.join(root, f)
+                    h.update(p.encode())
+                    with open(p, "rb") as fh:
+                        h.update(fh.read())
+    for root, dirs, files in os.walk(HERE):
+        dirs[:] = sorted(d for d in dirs if d not in ("__pycache__", "corr"))
+        for f in sorted(files):
+            if f.endswith((".py", ".json")) and (f.startswith(("extract", "pin", "pyexpr", "threads_", "apache_pins", "totpserial_pins")) or root.endswith("pins")):
+                with open(os.path.join(root, f), "rb") as fh:
+                    h.update(fh.read())
+    return h.hexdigest()
+
+
+def refresh_foreign_units(own):
+    stamp = os.path.join(LEAN, ".lake", "gen_fingerprint")
+    fp = source_fingerprint()
+    try:
+        if open(stamp).read().strip() == fp:
+            return
+    except OSError:
+        pass
+    rc, out, _ = sh(["/venv/bin/python", os.path.join(HERE, "extract.py"), "--status", os.path.join(LEAN, ".lake", "gen_status_all.json")], timeout=900)
+    if rc == 0:
+        os.makedirs(os.path.dirname(stamp), exist_ok=True)
+        with open(stamp, "w") as fh:
+            fh.write(fp)
+
+
 def raised_by_implementation(e: BaseException) -> bool:
     """was the exception raised below a frame of /repo (the library, or something the library called), rather than by harness code?"""
     tb = e.__traceback__
@@ -201,6 +236,10 @@ def main():
     targets = list(getattr(mod, "LEAN_TARGETS", [f"PasslibVerif.Props.{prop}"]))
     with Lock():
         st_path = os.path.join(LEAN, ".lake", f"gen_status_{prop}.json")
+        # the units this property does not own are imported by the shared driver (and sometimes by lemma files this property's proofs import):
+        # they are refreshed too whenever the source differs from the one they were last translated from, so that no check ever builds
+        # against a translation of another tree (their failures are not this property's obligations; the last good text stays in place)
+        refresh_foreign_units(units)
         rc, out, dt = sh(["/venv/bin/python", os.path.join(HERE, "extract.py"), "--units", ",".join(units), "--status", st_path], timeout=600) if units else (0, "", 0.0)
         phases["extract_s"] = round(dt, 2)
         gen_status = json.load(open(st_path)) if units and rc == 0 and os.path.exists(st_path) else {}
